@@ -52,6 +52,10 @@ def body_pieces(rnd, fid, reqs, opts, stmts, loops_at, sites):
         pieces.append((site(sites[(hash((fid, n)) & 0xffff) % len(sites)], n, opts.get(n)), False))
     for s in stmts:
         pieces.append((b'do ' + s.rstrip(b'\n') + b' end\n', False))
+    if rnd.randrange(2):
+        # not game-loop functions (must be kept): members and locals that merely carry such a name
+        pieces.append((rnd.choice((b'local m = {}\nfunction m._update() return 1 end\nfunction m._draw(a) end\n', b'local function _init() end\n',
+                                   b'obj = {_draw = function() end}\nfunction obj:_init() end\n', b'function _initx() end\nfunction x_draw() end\n')), False))
     for pos in loops_at:
         lp = LOOPS[rnd.randrange(len(LOOPS))]
         k = {'start': 0, 'middle': max(1, len(pieces) // 2), 'end': len(pieces)}[pos]
